@@ -274,6 +274,8 @@ func checkC05(res *Result) {
 
 	res.Functions = len(reachFrom(p, E, "baseActor.deliver"))
 	res.Count("functions reachable from deliver", res.Functions, 25)
+	res.Rule("C05-R7", "the outbox pipeline is a function of the request: no method of the actor types writes a field of its receiver (nothing looked up for one outbox — its owner, its id — can be remembered and used for another)")
+	checkStatelessHandlers(res, p, "C05-R7")
 	res.Assumptions = append(res.Assumptions, "a custom DelegateActor is outside the library: the pipeline is checked for *sideEffectActor", "CFG paths over-approximate feasible paths")
 	res.Undecided = []string{"union semantics of normalizeRecipients on overlapping sets (value level)", "'newest first' over a history of posts (the per-post step is decided)", "that fresh ids are distinct (Database.NewID is the application's)"}
 	res.Trusted = []string{"go/types, go/ssa (x/tools v0.29.0)", "e1_effects.go, e2_facts.go, e9_errflow.go"}
